@@ -32,6 +32,17 @@ fn problems() -> Vec<Prob> {
         base(Base::Lin3),
         vdp(100.0),
         vdp(1000.0),
+        // stiff for the explicit methods: their runs end with ProbablyStiff / StepSizeTooSmall after
+        // thousands of steps; the counters must be right at those exits too
+        Prob {
+            name: "tracking y'=-2000(y-cos t)".into(),
+            n: 1,
+            f: Arc::new(|t, y, d| d[0] = -2000.0 * (y[0] - t.cos())),
+            jac: Some(Arc::new(|_t, _y| vec![-2000.0])),
+            flow: None,
+            y0: vec![1.0],
+            linear_homogeneous: false,
+        },
     ]
 }
 
